@@ -248,3 +248,27 @@ pub fn stress(kind: &str, n: usize, rng: &mut SmallRng) -> Vec<Program> {
     }
     out
 }
+
+/// C14 / C15: accounting under races with the clock.  One key holding a large record that has expired but has not been
+/// collected; one client whose command looks the key up (and so collects it lazily), one that stores a record of another
+/// size with a short TTL (or deletes / appends), and the clock as a third client: a second passes at any point.
+/// Policy random with a far-away limit: judged for completion and for usage = stored bytes at quiescence.
+pub fn clocked(kind: &str) -> Vec<Program> {
+    let mut out = Vec::new();
+    let mut big = cmd("set", &vec![b'B'; 40], 0, 1, 1);
+    big.key = K.to_vec();
+    let setup = vec![big, tick(5)];
+    let lookers = vec![cmd("get", b"", 0, 0, 11), cmd("add", b"7", 0, 0, 12), cmd("replace", b"7", 0, 0, 13), cmd("incr", b"", 0, 0, 14), cmd("append", b"zz", 0, 0, 15)];
+    let writers = vec![cmd("set", b"s", 0, 1, 21), cmd("set", b"s", 0, 0, 22), cmd("set", &vec![b'L'; 90], 0, 1, 23), cmd("add", b"s", 0, 1, 24),
+        cmd("delete", b"", 0, 0, 25), cmd("get", b"", 0, 0, 26)];
+    for (i, a) in lookers.iter().enumerate() {
+        for (j, b) in writers.iter().enumerate() {
+            for t in [6u64, 7] {
+                out.push(Program { layer: "memc".into(), name: format!("{}-clocked-{}-{}-{}", kind, i, j, t), kind: kind.into(), init: "expired".into(),
+                    policy: "random".into(), mem_limit: 10000, keys: vec![K.to_vec()], setup: setup.clone(),
+                    clients: vec![vec![a.clone()], vec![b.clone()], vec![tick(t)]], post_tick: 0 });
+            }
+        }
+    }
+    out
+}
